@@ -139,6 +139,8 @@ def sample_value(p, rng, mode, ctx):
     if p == "kappa":
         return rng.uniform(20, 50)
     if p == "a":
+        if rng.random() < 0.2:
+            return rng.choice([2.0, 3.0, 1.0])        # whole-number exponents (written a=2 by a user: see call_impl)
         return rng.uniform(1.2, 2.6)
     if p == "C":
         return rng.uniform(1500, 2500)
@@ -192,7 +194,10 @@ def call_impl(var, vals, lib, scalar_shape="float"):
                 continue
             x = vals[p]
             if lib == "np" and p not in STATE_SCALARS:
-                pass          # model / link parameters reach the engines as Python numbers
+                # model / link parameters reach the engines as Python numbers; whole numbers as Python ints
+                # (lanes=2, a=2 is how a user writes them)
+                if isinstance(x, float) and x.is_integer() and abs(x) < 1e6:
+                    x = int(x)
             elif lib == "np":
                 if scalar_shape == "vec1" and p in INDEXED_SCALARS:
                     x = np.float64(x)     # state[0] / state[-1]: a NumPy scalar
